@@ -44,6 +44,16 @@ THEOREMS = [
     "OllamaVerif.C19.measured_prompt_fits_fixed",
     "OllamaVerif.C19.F4_system_at_cut_dropped",
     "OllamaVerif.C19.F4b_legacy_overwrite",
+    "OllamaVerif.C19.F4c_cut_else_panics",
+    "OllamaVerif.C19.runner_resolves_every_tag",
+    "OllamaVerif.C19.handler_latest",
+    "OllamaVerif.C19.handler_model_system_first",
+    "OllamaVerif.C19.handler_model_system_reaches_template",
+    "OllamaVerif.C19.templ_ok_generic",
+    "OllamaVerif.C19.collate_keeps_everything",
+    "OllamaVerif.Prompt.legacy_join_nothing_lost",
+    "OllamaVerif.C19.legacy_join_nothing_lost_tLegacy",
+    "OllamaVerif.C19.join_step_conservative",
 ]
 OVERLAY = {"server/zz_verif_c19_test.go": "server/zz_verif_c19_test.go",
            "server/zz_verif_c19tmpl_test.go": "server/zz_verif_c19tmpl_test.go"}
